@@ -15,6 +15,8 @@ pub struct X86 {
     pub rng: Rng,
     /// uninitialised memory reads return a junk value derived from the address
     pub junk: u64,
+    /// addresses in [zero.0, zero.1) read as 0 when never written (the zero-filled heap)
+    pub zero: (u64, u64),
 }
 
 impl X86 {
@@ -22,7 +24,10 @@ impl X86 {
         self.regs[r.0]
     }
     fn ld(&self, a: u64) -> u64 {
-        *self.mem.get(&a).unwrap_or(&(a.wrapping_mul(0x9E3779B97F4A7C15) ^ self.junk))
+        match self.mem.get(&a) {
+            Some(v) => *v,
+            None => if a >= self.zero.0 && a < self.zero.1 { 0 } else { a.wrapping_mul(0x9E3779B97F4A7C15) ^ self.junk },
+        }
     }
     fn ea(&self, b: Register, off: i64) -> u64 {
         self.regs[b.0].wrapping_add(off as u64)
@@ -78,7 +83,7 @@ impl Machine for X86 {
         // a plausible, 16-byte aligned + 8 stack pointer as inside the routine body
         regs[0] = 0x7fff_0000_1008;
         let junk = rng.next();
-        X86 { regs, mem: HashMap::new(), fl: None, calls: vec![], rng, junk }
+        X86 { regs, mem: HashMap::new(), fl: None, calls: vec![], rng, junk, zero: (0, 0) }
     }
 
     fn exec(&mut self, code: &[Code]) -> Exit {
@@ -293,6 +298,9 @@ impl Machine for X86 {
             Temporary::Spill(k) => Some(k.0),
             _ => None,
         }
+    }
+    fn set_zero_region(&mut self, lo: u64, hi: u64) {
+        self.zero = (lo, hi);
     }
     fn scratch_regs() -> Vec<usize> {
         vec![1]
